@@ -226,7 +226,8 @@ def token_class(text, a, b):
                     return 'comment-absorbs-inserted-LF-after-CR' if c == 'absorb' else \
                         'line-ends-normalised-inside:' + c[5:]
         if all(''.join(x.split()) == ''.join(y.split()) for tt, x, y in diff):
-            if all(tt in T.Comment or tt in T.Literal.String for tt, x, y in diff):
+            if all(tt in T.Comment or tt in T.Literal.String or (tt in T.Name and x[:1] in '[`') or
+                   (tt is T.Literal and x[:1] == '$') for tt, x, y in diff):
                 # only some of the lines inside the token were normalised
                 return 'string-or-comment-lines-partially-normalised'
             return 'tokens-changed:whitespace-inside-token'
@@ -400,6 +401,9 @@ def gen_grammar_case(rng):
     return text, 'grammar-script'
 
 
+NON_GRAMMAR_KINDS = ('junk', 'uni', 'sql+junk', 'kwsoup', 'casesoup', 'exn-shape')
+
+
 def _oracles(ctx):
     n = ctx.n(1500, 20000)
     fails = []
@@ -415,6 +419,10 @@ def _oracles(ctx):
         dist[kind] += 1
         texts.append(text)
         for f in oracle_all(text):
+            # the normal forms quantify over scripts of the verification grammar: junk / keyword soup / unicode soup /
+            # spliced texts serve the correspondence stage and the no-exception part (c) only
+            if kind in NON_GRAMMAR_KINDS and f.get('part') != 'c':
+                continue
             classes[f['class']] += 1
             fails.append(f)
     # one representative per class first, so that a rare class is not cut off
